@@ -892,13 +892,30 @@ pub fn judge_entry_point(ep: &str, data: &[u8], opt: Opt, props: Props, built_wi
         }
         other => return Err(format!("unknown entry point {}", other)),
     };
+    if prop == "C05" {
+        // C05 states one thing: the streaming decoder sides with the one-shot decoder on the same bytes and options
+        // (what BOTH do with the input is the text of C01 / C08)
+        if !ep.starts_with("stream") || one.0.verdict == Verdict::Panic {
+            return Ok(vec![]);
+        }
+        let mut vs = vec![];
+        if out.verdict == Verdict::Panic {
+            vs.push(format!("{} panics ({}), the one-shot decoder gives {:?}", ep, out.msg, one.0.verdict));
+        } else if (out.verdict == Verdict::Ok) != (one.0.verdict == Verdict::Ok) || (out.verdict == Verdict::Ok && out.out != one.0.out) {
+            vs.push(format!("{} gives {:?} ({} bytes; {}), the one-shot decoder {:?} ({} bytes; {}) (rule: {})", ep, out.verdict, out.out.len(), out.msg, one.0.verdict, one.0.out.len(), one.0.msg, rule));
+        }
+        return Ok(vs);
+    }
     let mut tagged: Vec<(String, String)> = vec![];
     match out.verdict {
         Verdict::Panic => tagged.push(("panic".into(), format!("panic: {}", out.msg))),
         Verdict::Ok => match e.v {
             Exp::Err => tagged.push((format!("reject:{}", e.class), format!("accepted ({} bytes) although the rules say error ({})", out.out.len(), e.class))),
             _ => {
-                if out.out != e.out {
+                if out.out.len() != e.out.len() && size_eff == Some(e.out.len() as u64) {
+                    // a size is in effect: "success implies exactly that many bytes were produced"
+                    tagged.push(("output-length".into(), format!("output of {} bytes with a size of {} bytes in effect", out.out.len(), e.out.len())));
+                } else if out.out != e.out {
                     tagged.push(("exact-output".into(), format!("output of {} bytes, the stream defines {}", out.out.len(), e.out.len())));
                 } else if let (Some(c1), Some(ec)) = (consumed, e.consumed) {
                     if e.v == Exp::Ok && c1 != ec {
